@@ -334,35 +334,9 @@ class Compiler:
                 # Found inner function - check what variables it uses
                 inner_captured = self._find_free_vars_in_function(node, locals_set)
                 captured.update(inner_captured)
-            elif isinstance(node, BlockStatement):
-                for stmt in node.body:
-                    visit(stmt)
-            elif isinstance(node, IfStatement):
-                visit(node.consequent)
-                if node.alternate:
-                    visit(node.alternate)
-            elif isinstance(node, WhileStatement):
-                visit(node.body)
-            elif isinstance(node, DoWhileStatement):
-                visit(node.body)
-            elif isinstance(node, ForStatement):
-                visit(node.body)
-            elif isinstance(node, ForInStatement):
-                visit(node.body)
-            elif isinstance(node, TryStatement):
-                visit(node.block)
-                if node.handler:
-                    visit(node.handler.body)
-                if node.finalizer:
-                    visit(node.finalizer)
-            elif isinstance(node, SwitchStatement):
-                for case in node.cases:
-                    for stmt in case.consequent:
-                        visit(stmt)
-            elif isinstance(node, LabeledStatement):
-                visit(node.body)
             elif hasattr(node, "__dict__"):
-                # For expression nodes (e.g., arrow function expression body)
+                # Every other node: statements (their tests, discriminants and iterables
+                # as well as their bodies) and expressions
                 for value in node.__dict__.values():
                     if isinstance(value, Node):
                         visit(value)
@@ -622,20 +596,10 @@ class Compiler:
                 name = decl.id.name
                 if self._in_function:
                     self._add_local(name)
-                    slot = self._get_local(name)
-                    self._emit(OpCode.STORE_LOCAL, slot)
-                else:
-                    idx = self._add_name(name)
-                    self._emit(OpCode.STORE_NAME, idx)
+                self._emit_store_variable(name)
                 self._emit(OpCode.POP)
             elif isinstance(node.left, Identifier):
-                name = node.left.name
-                slot = self._get_local(name)
-                if slot is not None:
-                    self._emit(OpCode.STORE_LOCAL, slot)
-                else:
-                    idx = self._add_name(name)
-                    self._emit(OpCode.STORE_NAME, idx)
+                self._emit_store_variable(node.left.name)
                 self._emit(OpCode.POP)
             elif isinstance(node.left, MemberExpression):
                 # for (obj.prop in ...) or for (obj[key] in ...)
@@ -691,20 +655,10 @@ class Compiler:
                 name = decl.id.name
                 if self._in_function:
                     self._add_local(name)
-                    slot = self._get_local(name)
-                    self._emit(OpCode.STORE_LOCAL, slot)
-                else:
-                    idx = self._add_name(name)
-                    self._emit(OpCode.STORE_NAME, idx)
+                self._emit_store_variable(name)
                 self._emit(OpCode.POP)
             elif isinstance(node.left, Identifier):
-                name = node.left.name
-                slot = self._get_local(name)
-                if slot is not None:
-                    self._emit(OpCode.STORE_LOCAL, slot)
-                else:
-                    idx = self._add_name(name)
-                    self._emit(OpCode.STORE_NAME, idx)
+                self._emit_store_variable(node.left.name)
                 self._emit(OpCode.POP)
             else:
                 raise self._syntax_error(
@@ -1251,6 +1205,23 @@ class Compiler:
         self.source_map = old_source_map
 
         return func
+
+    def _emit_store_variable(self, name: str) -> None:
+        """Store the top of the stack in the variable `name` wherever it lives: a cell shared
+        with inner functions, a plain local, a variable of an enclosing function, or a global."""
+        cell_slot = self._get_cell_var(name)
+        if cell_slot is not None:
+            self._emit(OpCode.STORE_CELL, cell_slot)
+            return
+        slot = self._get_local(name)
+        if slot is not None:
+            self._emit(OpCode.STORE_LOCAL, slot)
+            return
+        closure_slot = self._get_free_var(name)
+        if closure_slot is not None:
+            self._emit(OpCode.STORE_CLOSURE, closure_slot)
+            return
+        self._emit(OpCode.STORE_NAME, self._add_name(name))
 
     @staticmethod
     def _syntax_error(node: Node, message: str) -> JSSyntaxError:
